@@ -18,6 +18,10 @@ From CSS Require Import Base.PyList Gen.Prelude Gen.Compositions Count.Compositi
                         Count.ObjectsCountModel Count.ObjectsCount
                         Count.ObjectsTermsModel Count.ObjectsTermsAlgebra Count.ObjectsTermsSpec
                         Count.ObjectsReverse Count.ObjectsVerified.
+(* objects <-> parse trees (shared with C08 and C12): separable delta = this line, section "parse trees" and its
+   examples / Print Assumptions *)
+From CSS Require Import Count.SampleModel Count.SampleUniform Count.ParseTrees Count.ParseTreesProofs Count.ParseTreesForms.
+From CSS Require Count.ObjectsRun Count.ParseTreesRun Count.ParseTreesRunSpec.
 Import ListNotations.
 Open Scope Z_scope.
 
@@ -125,9 +129,9 @@ Theorem C07_generate_perm : forall c n (enum : params -> list obj),
                  NoDup l /\ Permutation l (enum p) /\ length l = length (enum p).
 Proof. intros. eapply generate_perm; eauto. Qed.
 
-(* PARTIAL: the number the specification reports equals the length of the
-   generated list PROVIDED the count is the true number of objects — that is
-   property C01's conclusion and is assumed here, not proved.  (The two _step
+(* PARTIAL: `count` is ANY function; IF it gives the true number of objects (property C01's
+   conclusion about the number the specification reports - assumed here, not proved, and no
+   counting code is mentioned) then it gives the length of the generated list.  (The two _step
    theorems above are the inductive step of the assumption-free statement; the
    induction through the terms caches of a whole specification is not done.) *)
 Theorem C07_count_eq_length_partial : forall c n (enum : params -> list obj) (count : params -> nat),
@@ -233,8 +237,11 @@ Theorem C07_roundtrip_reverse_equivalence : forall c kids maps fwd bwd j kj,
        (eqv_backward (rev_backward (fun o => Some (fwd o)) j true) 0 (length kids)).
 Proof. intros. eapply reverse_equivalence_link; eassumption. Qed.
 
-(* EquivalencePathRule: a chain of unary forms (each of the three above, or a
-   plain one-child rule) from class A to class C *)
+(* EquivalencePathRule: a chain of unary forms from class A to class C, every step a `link`
+   (C07_roundtrip_equivalence, C07_roundtrip_reverse_equivalence, C07_roundtrip_plain_single; C07_roundtrip_reverse
+   is NOT a link - a bare ReverseRule of a one-child rule is one by Count/ObjectsForms.v reverse_single_link, and
+   with the full contract by C07_reverse_single_contract).  Only the composite is stated; the full two-way statement
+   with sizes and parameters is C07_path_contract below. *)
 Theorem C07_roundtrip_path : forall A fbs C, chain In_cls A fbs C ->
   forall o, In_cls A o ->
   exists z, In_cls C z /\ path_forward (map fst fbs) o = Some [Some z] /\
@@ -316,6 +323,155 @@ Theorem C07_verified_get_objects : forall {obj} (spec : nat -> option (rule obj)
   forall f, (Z.to_nat (n + 1 - clen s c) + 1 <= f)%nat ->
   exists s', get_objects spec f s c n = Some (s', tbl n) /\ vcons c tbl s'.
 Proof. intros. eapply verified_get_objects; eassumption. Qed.
+
+(* ---------------------------------------------------------------- parse trees *)
+(* OBJECTS ARE PARSE TREES (Count/ParseTrees*.v; shared with C08 and C12).
+   Data: the specification `spec` of C07_generate_exact, plus
+     atom c   the single object of class c when its rule is the verification rule of an atom, None otherwise;
+     fwd c    Rule.forward_map of the rule of class c (a function, so that `parse` is executable).
+   Hypothesis `node_ok` for every class: union_contract / product_contract (+ bounds_ok) of C07_union_level /
+   C07_product_level for the rule's own forward and backward map; a verification rule is an atom (its class is
+   exactly {atom c}) or empty.  Verification strategies with several objects are NOT covered (no leaf for them).
+   `twf t c` : t is a well-formed parse tree of class c (the wf of C08's sampler model and, through
+   Iso/ParseTreesIso.v emb, the wf_tree of C12);  tsz / tpr : size and parameter tuple computed on the tree;
+   unparse t : backward maps applied bottom-up (each must yield exactly one object);
+   parse f c o : forward maps applied top-down with recursion depth f.
+   For a closed, one-rule-per-class, productive (rank certificate, as in C07_generate_exact) specification, for
+   every class c with a rule, size n and parameters p, unparse is a bijection between the well-formed trees of c
+   of size n and parameters p and the objects of c of size n and parameters p, and parse computes its inverse. *)
+Section ParseTrees.
+Context {obj : Type}.
+Variable size : obj -> Z.
+Variable In_cls : nat -> obj -> Prop.
+Variable par : nat -> obj -> params.
+Variable spec : nat -> option (rule obj).
+Variable atom : nat -> option obj.
+Variable fwd : nat -> obj -> subobj obj.
+Variable rank : nat -> Z -> nat.
+Hypothesis contracts : forall c, node_ok size In_cls par spec atom fwd c.
+Hypothesis closed : forall c r n c' m,
+  spec c = Some r -> 0 <= n -> In (c', m) (reads r n) -> spec c' <> None.
+Hypothesis productive_reads : forall c r n c' m,
+  spec c = Some r -> 0 <= n -> In (c', m) (reads r n) -> 0 <= m /\ (rank c' m < rank c n)%nat.
+Hypothesis size_nonneg : forall c o, In_cls c o -> 0 <= size o.
+
+Theorem C07_objects_are_parse_trees : forall c n p,
+  spec c <> None ->
+  (forall t, twf spec atom t c -> tsz size atom t = n -> tpr par spec atom t = p ->
+     exists o, unparse spec atom t = Some o /\ isobj size In_cls par c n p o) /\
+  (forall t t' o, twf spec atom t c -> twf spec atom t' c ->
+     unparse spec atom t = Some o -> unparse spec atom t' = Some o -> t = t') /\
+  (forall o, isobj size In_cls par c n p o ->
+     exists t, twf spec atom t c /\ tsz size atom t = n /\ tpr par spec atom t = p /\
+               unparse spec atom t = Some o /\
+               exists f0, forall f, (f0 <= f)%nat -> parse spec atom fwd f c o = Some t).
+Proof. intros. eapply objects_are_parse_trees; eauto. Qed.
+
+(* unparse then parse gives the tree back; whenever parse answers (ANY fuel) its answer is the tree of the object *)
+Theorem C07_parse_unparse : forall t c o, twf spec atom t c -> unparse spec atom t = Some o ->
+  In_cls c o /\ exists f0, forall f, (f0 <= f)%nat -> parse spec atom fwd f c o = Some t.
+Proof. intros. eapply parse_unparse; eauto. Qed.
+
+Theorem C07_parse_sound : forall f c o t, In_cls c o -> parse spec atom fwd f c o = Some t ->
+  twf spec atom t c /\ unparse spec atom t = Some o.
+Proof. intros. eapply parse_sound; eauto. Qed.
+
+(* the bijection commutes with the rules' maps: at a union node forward_map of the node's object is
+   (None,..,y,..,None) with y the object of the subtree, and backward_map of that tuple yields the node's object;
+   at a product node forward_map gives the tuple of the subtrees' objects *)
+Theorem C07_node_commutes_union : forall c i t' o,
+  twf spec atom (UNode c i t') c -> unparse spec atom (UNode c i t') = Some o ->
+  exists kids maps bwd ci y,
+    spec c = Some (RUnion kids maps bwd) /\ nth_error kids i = Some ci /\
+    den size In_cls par spec atom t' ci y /\
+    fwd c o = slot (length kids) i y /\ bwd (slot (length kids) i y) = [o].
+Proof. intros. eapply node_commutes_union; eauto. Qed.
+
+Theorem C07_node_commutes_product : forall c ts o,
+  twf spec atom (PNode c ts) c -> unparse spec atom (PNode c ts) = Some o ->
+  exists kids mins maxs maps bwd ys,
+    spec c = Some (RProduct kids mins maxs maps bwd) /\ omap (unparse spec atom) ts = Some ys /\
+    Forall2 In_cls kids ys /\ fwd c o = map Some ys /\ bwd (map Some ys) = [o].
+Proof. intros. eapply node_commutes_product; eauto. Qed.
+
+(* what node_ok gives C07_generate_exact: the contracts of the union and product rules *)
+Theorem C07_node_ok_rule_ok : forall c r, spec c = Some r -> node_ok size In_cls par spec atom fwd c ->
+  match r with RVerified _ => True | _ => rule_ok size In_cls par c r end.
+Proof. intros. eapply node_ok_rule_ok; eauto. Qed.
+End ParseTrees.
+
+(* DERIVED RULE FORMS SATISFY THE FULL CONTRACT.  C07_roundtrip_* above give one-way `link`s; the node
+   RUnion [child] [map] derived_backward_map that stands for an EquivalenceRule / EquivalencePathRule in a
+   specification (Count/ObjectsRun.v dec_rule) needs union_contract - both directions, size law, parameter law -
+   to be covered by C07_generate_exact and to be a node of parse trees.  It follows from the ORIGINAL rule's
+   union_contract and others_empty.  tot_fwd / tot_bwd: a map that raises yields nothing. *)
+Section DerivedForms.
+Context {obj : Type}.
+Variable size : obj -> Z.
+Variable In_cls : nat -> obj -> Prop.
+Variable par : nat -> obj -> params.
+
+(* EquivalenceRule(rule): parent c, child kids[j], the parameter map of child j *)
+Theorem C07_equivalence_contract : forall c kids maps fwd bwd j kj,
+  union_contract size In_cls par c kids maps fwd bwd ->
+  nth_error kids j = Some kj ->
+  (forall i k y, nth_error kids i = Some k -> In_cls k y -> i = j) ->
+  union_contract size In_cls par c [kj] [nth j maps (fun x => x)]
+    (tot_fwd (eqv_forward (fun o => Some (fwd o)) j))
+    (tot_bwd (eqv_backward (fun t => Some (bwd t)) j (length kids))).
+Proof. intros. eapply equivalence_contract; eassumption. Qed.
+
+(* EquivalenceRule(ReverseRule(rule, j)): parent kids[j], child c.  m' is the parameter map of the reversed
+   direction; it must undo the map of child j on the tuples that occur (C09_complement_round_trip) *)
+Theorem C07_reverse_equivalence_contract : forall c kids maps fwd bwd j kj (m' : pmap),
+  union_contract size In_cls par c kids maps fwd bwd ->
+  nth_error kids j = Some kj ->
+  (forall i k y, nth_error kids i = Some k -> In_cls k y -> i = j) ->
+  (forall y, In_cls kj y -> m' (nth j maps (fun x => x) (par kj y)) = par kj y) ->
+  union_contract size In_cls par kj [c] [m']
+    (tot_fwd (eqv_forward (rev_forward (fun t => Some (bwd t)) j (length kids) true) 0))
+    (tot_bwd (eqv_backward (rev_backward (fun o => Some (fwd o)) j true) 0 (length kids))).
+Proof. intros. eapply reverse_equivalence_contract; eassumption. Qed.
+
+(* ... with the flag len(original_rule.non_empty_children()) == 1 COMPUTED from truthful is_empty answers instead
+   of passed as `true` (cf. C07_reverse_flag): the contract still holds, because with child j empty both classes
+   are empty *)
+Theorem C07_reverse_equivalence_contract_flag : forall c kids maps fwd bwd j kj (m' : pmap) (nonempty : nat -> bool),
+  union_contract size In_cls par c kids maps fwd bwd ->
+  nth_error kids j = Some kj ->
+  (forall i k y, nth_error kids i = Some k -> In_cls k y -> i = j) ->
+  (forall y, In_cls kj y -> m' (nth j maps (fun x => x) (par kj y)) = par kj y) ->
+  (forall k, nonempty k = true <-> exists y, In_cls k y) ->
+  union_contract size In_cls par kj [c] [m']
+    (tot_fwd (eqv_forward (rev_forward (fun t => Some (bwd t)) j (length kids) (one_nonempty_flag nonempty kids)) 0))
+    (tot_bwd (eqv_backward (rev_backward (fun o => Some (fwd o)) j (one_nonempty_flag nonempty kids)) 0 (length kids))).
+Proof. intros. eapply reverse_equivalence_contract_flag; eassumption. Qed.
+
+(* a bare ReverseRule of a one-child rule *)
+Theorem C07_reverse_single_contract : forall c kids maps fwd bwd j kj (m' : pmap),
+  union_contract size In_cls par c kids maps fwd bwd ->
+  nth_error kids j = Some kj ->
+  (forall i k y, nth_error kids i = Some k -> In_cls k y -> i = j) ->
+  (forall y, In_cls kj y -> m' (nth j maps (fun x => x) (par kj y)) = par kj y) ->
+  length kids = 1%nat ->
+  union_contract size In_cls par kj [c] [m']
+    (tot_fwd (rev_forward (fun t => Some (bwd t)) j (length kids) true))
+    (tot_bwd (rev_backward (fun o => Some (fwd o)) j true)).
+Proof. intros. eapply reverse_single_contract; eassumption. Qed.
+
+(* EquivalencePathRule: a chain of unary forms, each with the full contract (cchain: one of the three above
+   or a plain one-child rule), collapsed into one node whose parameter map is the composition *)
+Theorem C07_path_contract : forall A steps C, cchain size In_cls par A steps C ->
+  union_contract size In_cls par A [C] [compose_maps (map st_map steps)]
+    (tot_fwd (path_forward (map st_fwd steps))) (tot_bwd (path_backward (map st_bwd steps))).
+Proof. intros. eapply path_contract; eassumption. Qed.
+End DerivedForms.
+
+(* the extracted function the correspondence runs, run_c07p (Count/ParseTreesRun.v: the parse-tree queries 5 and 6
+   added), answers every input without such queries exactly as run_c07 did *)
+Theorem C07_run_extends : forall inp,
+  Forall ParseTreesRunSpec.old_kind (Sx.sx_list (Sx.sx_nth inp 1)) -> ParseTreesRun.run_c07p inp = ObjectsRun.run_c07 inp.
+Proof. exact ParseTreesRunSpec.run_c07p_extends. Qed.
 
 (* non-vacuity: the specification  0 -> 1 + 2,  2 -> 3 x 0,  1 and 3 atoms  (words over one letter,
    Count/ObjectsExample.v) satisfies every hypothesis of the end-to-end theorem - contracts of a union and
@@ -1168,6 +1324,168 @@ Proof.
   split; [exact H1|]. rewrite H2. reflexivity.
 Qed.
 
+(* ---- objects <-> parse trees on the bw specification ---- *)
+Definition bw_atomo (c : nat) : option (list bool) :=
+  match c with 1%nat => Some [] | 4%nat => Some [false] | 5%nat => Some [true] | _ => None end.
+Definition bw_fwd (c : nat) : list bool -> subobj (list bool) :=
+  match c with
+  | 0%nat => bw_fwdU | 2%nat => bw_fwdP | 3%nat => bw_fwdP | 7%nat => bw_fwd7 | 8%nat => bw_fwd8
+  | _ => fun _ => []
+  end.
+Lemma bw_node_ok : forall c, node_ok bw_size bw_in bw_par bw_spec bw_atomo bw_fwd c.
+Proof.
+  intros c. unfold node_ok. destruct c as [|[|[|[|[|[|[|[|[|c]]]]]]]]]; simpl; auto.
+  - apply bw_union_contract.
+  - intros o. tauto.
+  - split; [apply (bw_product_contract false)|apply (bw_bounds 4%nat false)]; intros w; simpl; tauto.
+  - split; [apply (bw_product_contract true)|apply (bw_bounds 5%nat true)]; intros w; simpl; tauto.
+  - intros o. tauto.
+  - intros o. tauto.
+  - apply bw_single_contract.
+  - apply bw_equiv_contract.
+Qed.
+Lemma bw_size_nonneg : forall c o, bw_in c o -> 0 <= bw_size o.
+Proof. intros c o _. unfold bw_size, zlen. lia. Qed.
+
+(* all hypotheses hold for the words over {a,b}: for the root, size 3, one b ... *)
+Example C07_objects_are_parse_trees_nonvacuous :
+  (forall o, bw_isobj 0%nat 3 [1] o ->
+     exists t, twf bw_spec bw_atomo t 0%nat /\ tsz bw_size bw_atomo t = 3 /\ tpr bw_par bw_spec bw_atomo t = [1] /\
+               unparse bw_spec bw_atomo t = Some o /\
+               exists f0, forall f, (f0 <= f)%nat -> parse bw_spec bw_atomo bw_fwd f 0%nat o = Some t) /\
+  (forall t t' o, twf bw_spec bw_atomo t 0%nat -> twf bw_spec bw_atomo t' 0%nat ->
+     unparse bw_spec bw_atomo t = Some o -> unparse bw_spec bw_atomo t' = Some o -> t = t').
+Proof.
+  destruct (C07_objects_are_parse_trees bw_size bw_in bw_par bw_spec bw_atomo bw_fwd bw_rank bw_node_ok bw_closed
+              bw_rank_reads bw_size_nonneg 0%nat 3 [1] ltac:(discriminate)) as (_ & H2 & H3).
+  split; assumption.
+Qed.
+(* ... and the model computes: the tree of "ab" (through the union, the product with the atom a, the union, the
+   product with the atom b, the union, the empty word), back to the word; through the path node 7 and the
+   equivalence node 8 the trees have one more unary node *)
+Example C07_parse_values :
+  parse bw_spec bw_atomo bw_fwd 20 0%nat [false; true]
+    = Some (UNode 0 1 (PNode 2 [Leaf 4; UNode 0 2 (PNode 3 [Leaf 5; UNode 0 0 (Leaf 1)])])) /\
+  unparse bw_spec bw_atomo (UNode 0 1 (PNode 2 [Leaf 4; UNode 0 2 (PNode 3 [Leaf 5; UNode 0 0 (Leaf 1)])]))
+    = Some [false; true] /\
+  parse bw_spec bw_atomo bw_fwd 20 8%nat [true]
+    = Some (UNode 8 1 (UNode 0 1 (PNode 2 [Leaf 4; UNode 0 0 (Leaf 1)]))) /\
+  unparse bw_spec bw_atomo (UNode 8 1 (UNode 0 1 (PNode 2 [Leaf 4; UNode 0 0 (Leaf 1)]))) = Some [true] /\
+  parse bw_spec bw_atomo bw_fwd 3 0%nat [false; true] = None /\
+  unparse bw_spec bw_atomo (UNode 0 5 (Leaf 1)) = None.
+Proof. vm_compute. repeat split; reflexivity. Qed.
+Example C07_parse_sound_nonvacuous :
+  twf bw_spec bw_atomo (UNode 8 1 (UNode 0 1 (PNode 2 [Leaf 4; UNode 0 0 (Leaf 1)]))) 8%nat /\
+  unparse bw_spec bw_atomo (UNode 8 1 (UNode 0 1 (PNode 2 [Leaf 4; UNode 0 0 (Leaf 1)]))) = Some [true].
+Proof.
+  apply (C07_parse_sound bw_size bw_in bw_par bw_spec bw_atomo bw_fwd bw_node_ok 20 8%nat [true]); [exact I|].
+  vm_compute. reflexivity.
+Qed.
+Example C07_parse_unparse_nonvacuous :
+  exists f0, forall f, (f0 <= f)%nat ->
+    parse bw_spec bw_atomo bw_fwd f 8%nat [true] = Some (UNode 8 1 (UNode 0 1 (PNode 2 [Leaf 4; UNode 0 0 (Leaf 1)]))).
+Proof.
+  destruct C07_parse_sound_nonvacuous as [Hw Hu].
+  exact (proj2 (C07_parse_unparse bw_size bw_in bw_par bw_spec bw_atomo bw_fwd bw_rank bw_node_ok bw_closed
+                  bw_rank_reads bw_size_nonneg _ 8%nat [true] Hw Hu)).
+Qed.
+Example C07_node_commutes_nonvacuous :
+  (exists kids maps bwd ci y,
+     bw_spec 8%nat = Some (RUnion kids maps bwd) /\ nth_error kids 1 = Some ci /\
+     den bw_size bw_in bw_par bw_spec bw_atomo (UNode 0 1 (PNode 2 [Leaf 4; UNode 0 0 (Leaf 1)])) ci y /\
+     bw_fwd 8%nat [true] = slot (length kids) 1 y /\ bwd (slot (length kids) 1 y) = [[true]]) /\
+  (exists kids mins maxs maps bwd ys,
+     bw_spec 2%nat = Some (RProduct kids mins maxs maps bwd) /\
+     omap (unparse bw_spec bw_atomo) [Leaf 4; UNode 0 0 (Leaf 1)] = Some ys /\
+     Forall2 bw_in kids ys /\ bw_fwd 2%nat [false] = map Some ys /\ bwd (map Some ys) = [[false]]).
+Proof.
+  destruct C07_parse_sound_nonvacuous as [Hw Hu]. split.
+  - exact (C07_node_commutes_union bw_size bw_in bw_par bw_spec bw_atomo bw_fwd bw_node_ok 8%nat 1%nat _ [true] Hw Hu).
+  - assert (Hw2 : twf bw_spec bw_atomo (PNode 2 [Leaf 4; UNode 0 0 (Leaf 1)]) 2%nat).
+    { apply (C07_parse_sound bw_size bw_in bw_par bw_spec bw_atomo bw_fwd bw_node_ok 20 2%nat [false]);
+        [exists []; reflexivity|vm_compute; reflexivity]. }
+    apply (C07_node_commutes_product bw_size bw_in bw_par bw_spec bw_atomo bw_fwd bw_node_ok 2%nat _ [false] Hw2).
+    vm_compute. reflexivity.
+Qed.
+Example C07_node_ok_rule_ok_nonvacuous : rule_ok bw_size bw_in bw_par 2%nat
+  (RProduct [4%nat; 0%nat] [1; 0] [Some 1; None] [pid; pid] bw_bwdP).
+Proof.
+  exact (C07_node_ok_rule_ok bw_size bw_in bw_par bw_spec bw_atomo bw_fwd 2%nat _ eq_refl (bw_node_ok 2%nat)).
+Qed.
+
+(* ---- derived forms inherit the full contract: rule 8 -> [6 (empty); 0], its reverse, and the path ---- *)
+Example C07_equivalence_contract_nonvacuous :
+  union_contract bw_size bw_in bw_par 8%nat [0%nat] [pid]
+    (tot_fwd (eqv_forward bw_pf8 1)) (tot_bwd (eqv_backward bw_pb8 1 (length [6%nat; 0%nat]))).
+Proof.
+  exact (C07_equivalence_contract bw_size bw_in bw_par 8%nat [6%nat; 0%nat] [pid; pid] bw_fwd8 bw_bwd8
+           1%nat 0%nat bw_equiv_contract eq_refl bw_others_empty).
+Qed.
+Lemma bw_rev_map : forall y, bw_in 0%nat y -> pid (nth 1 [pid; pid] (fun x => x) (bw_par 0%nat y)) = bw_par 0%nat y.
+Proof. intros y _. reflexivity. Qed.
+Example C07_reverse_equivalence_contract_nonvacuous :
+  union_contract bw_size bw_in bw_par 0%nat [8%nat] [pid]
+    (tot_fwd (eqv_forward (rev_forward bw_pb8 1 (length [6%nat; 0%nat]) true) 0))
+    (tot_bwd (eqv_backward (rev_backward bw_pf8 1 true) 0 (length [6%nat; 0%nat]))).
+Proof.
+  exact (C07_reverse_equivalence_contract bw_size bw_in bw_par 8%nat [6%nat; 0%nat] [pid; pid] bw_fwd8 bw_bwd8
+           1%nat 0%nat pid bw_equiv_contract eq_refl bw_others_empty bw_rev_map).
+Qed.
+Example C07_reverse_equivalence_contract_flag_nonvacuous :
+  union_contract bw_size bw_in bw_par 0%nat [8%nat] [pid]
+    (tot_fwd (eqv_forward (rev_forward bw_pb8 1 (length [6%nat; 0%nat]) (one_nonempty_flag bw_nonempty [6%nat; 0%nat])) 0))
+    (tot_bwd (eqv_backward (rev_backward bw_pf8 1 (one_nonempty_flag bw_nonempty [6%nat; 0%nat])) 0 (length [6%nat; 0%nat]))).
+Proof.
+  exact (C07_reverse_equivalence_contract_flag bw_size bw_in bw_par 8%nat [6%nat; 0%nat] [pid; pid] bw_fwd8 bw_bwd8
+           1%nat 0%nat pid bw_nonempty bw_equiv_contract eq_refl bw_others_empty bw_rev_map bw_nonempty_spec).
+Qed.
+Example C07_run_extends_nonvacuous :
+  ParseTreesRun.run_c07p (Sx.L [Sx.L [Sx.L [Sx.I 3; Sx.I 1; Sx.I 7]]; Sx.L [Sx.L [Sx.I 0; Sx.I 0; Sx.I 1]]])
+  = ObjectsRun.run_c07 (Sx.L [Sx.L [Sx.L [Sx.I 3; Sx.I 1; Sx.I 7]]; Sx.L [Sx.L [Sx.I 0; Sx.I 0; Sx.I 1]]]) /\
+  ParseTreesRun.run_c07p (Sx.L [Sx.L [Sx.L [Sx.I 3; Sx.I 1; Sx.I 7]]; Sx.L [Sx.L [Sx.I 5; Sx.I 0; Sx.I 7]; Sx.L [Sx.I 6; Sx.I 0; Sx.I 7]]])
+  = Sx.L [Sx.L [Sx.I 0; Sx.I 0]; Sx.L [Sx.I 7]].
+Proof.
+  split; [|vm_compute; reflexivity]. apply C07_run_extends. repeat constructor; discriminate.
+Qed.
+(* the reverse of the one-child rule 7 -> [0] used as it is *)
+Example C07_reverse_single_contract_nonvacuous :
+  union_contract bw_size bw_in bw_par 0%nat [7%nat] [pid]
+    (tot_fwd (rev_forward (fun t => Some (bw_bwd7 t)) 0 (length [0%nat]) true))
+    (tot_bwd (rev_backward (fun o => Some (bw_fwd7 o)) 0 true)).
+Proof.
+  apply (C07_reverse_single_contract bw_size bw_in bw_par 7%nat [0%nat] [pid] bw_fwd7 bw_bwd7 0%nat 0%nat pid
+           bw_single_contract eq_refl).
+  - intros [|i] k y Hi _; [reflexivity|destruct i; discriminate].
+  - intros y _. reflexivity.
+  - reflexivity.
+Qed.
+(* the path  7 --plain--> 0 --EquivalenceRule(ReverseRule)--> 8 --EquivalenceRule--> 0  as ONE node *)
+Definition bw_cpath : list (cstep (obj := list bool)) :=
+  [((fun o => Some (bw_fwd7 o)), (fun t => Some (bw_bwd7 t)), pid);
+   (eqv_forward (rev_forward bw_pb8 1 (length [6%nat; 0%nat]) true) 0,
+    eqv_backward (rev_backward bw_pf8 1 true) 0 (length [6%nat; 0%nat]), pid);
+   (eqv_forward bw_pf8 1, eqv_backward bw_pb8 1 (length [6%nat; 0%nat]), pid)].
+Lemma bw_cchain : cchain bw_size bw_in bw_par 7%nat bw_cpath 0%nat.
+Proof.
+  eapply cchain_cons; [exact bw_single_contract|].
+  eapply cchain_cons; [exact C07_reverse_equivalence_contract_nonvacuous|].
+  eapply cchain_cons; [exact C07_equivalence_contract_nonvacuous|]. apply cchain_nil.
+Qed.
+Example C07_path_contract_nonvacuous :
+  union_contract bw_size bw_in bw_par 7%nat [0%nat] [compose_maps (map st_map bw_cpath)]
+    (tot_fwd (path_forward (map st_fwd bw_cpath))) (tot_bwd (path_backward (map st_bwd bw_cpath))).
+Proof. exact (C07_path_contract bw_size bw_in bw_par 7%nat bw_cpath 0%nat bw_cchain). Qed.
+(* ... hence the path is a legitimate node of a specification: rule_ok, the hypothesis of C07_generate_exact *)
+Example C07_path_node_rule_ok :
+  rule_ok bw_size bw_in bw_par 7%nat
+    (RUnion [0%nat] [compose_maps (map st_map bw_cpath)] (tot_bwd (path_backward (map st_bwd bw_cpath)))).
+Proof. simpl. eexists. exact C07_path_contract_nonvacuous. Qed.
+Example C07_path_contract_values :
+  tot_fwd (path_forward (map st_fwd bw_cpath)) [true; false; false] = [Some [false; false; true]] /\
+  tot_bwd (path_backward (map st_bwd bw_cpath)) [Some [false; false; true]] = [[true; false; false]] /\
+  compose_maps (map st_map bw_cpath) [5] = [5].
+Proof. vm_compute. repeat split; reflexivity. Qed.
+
 Print Assumptions C07_union_sub_objects.
 Print Assumptions C07_product_sub_objects.
 Print Assumptions C07_union_level.
@@ -1192,4 +1510,16 @@ Print Assumptions C07_roundtrip_reverse.
 Print Assumptions C07_roundtrip_reverse_equivalence.
 Print Assumptions C07_roundtrip_path.
 Print Assumptions C07_roundtrip_plain_single.
+Print Assumptions C07_objects_are_parse_trees.
+Print Assumptions C07_parse_unparse.
+Print Assumptions C07_parse_sound.
+Print Assumptions C07_node_commutes_union.
+Print Assumptions C07_node_commutes_product.
+Print Assumptions C07_node_ok_rule_ok.
+Print Assumptions C07_equivalence_contract.
+Print Assumptions C07_reverse_equivalence_contract.
+Print Assumptions C07_reverse_equivalence_contract_flag.
+Print Assumptions C07_reverse_single_contract.
+Print Assumptions C07_run_extends.
+Print Assumptions C07_path_contract.
 Print Assumptions C07_nonvacuous.
